@@ -23,7 +23,7 @@ TECHNIQUE = ('deterministic schedule enumeration: two workloads on two '
              'of the first) plus Hypothesis-generated multi-switch '
              'schedules; differential against solo runs; every public '
              'operation as first pycel call of a new thread'
-             '; every workload on the importing thread vs a brand-new thread; first calls on a thread warmed by a same-address iterative workbook')
+             '; a formula chain deeper than the recursion limit next to a small evaluation (interpreter-wide settings); every workload on the importing thread vs a brand-new thread; first calls on a thread warmed by a same-address iterative workbook')
 LEVEL_TEXT = ('Exploration with complete enumeration of the two-switch '
               'schedule family for 9 ordered workload pairs (iterative with '
               'different settings, CSE array with shape changes, plain '
@@ -408,10 +408,87 @@ def check_first_call(rec):
                                  f'{box.get("result")!r}, expected {want!r}')
 
 
+# -- a workload near the interpreter's recursion limit -------------------------
+
+DEEP_N, DEEP_LIMIT = 150, 300
+
+
+def check_deep(rec):
+    """A chain of formulas deeper than the recursion limit allows gives on a
+    thread whatever it gives alone (a value or a pycel error), also when a
+    small evaluation on another thread begins before it and ends while it is
+    in flight, or the other way round.  (The limit is an interpreter-wide
+    setting: it is lowered here so that the chain stays short.)"""
+    import sys
+    cells = {'A1': 1}
+    for k in range(2, DEEP_N + 1):
+        cells[f'A{k}'] = f'=A{k - 1}+1'
+    deep_spec = {'sheets': {'S': cells}}
+    small_spec = {'sheets': {'S': {'A1': 1, 'B1': '=A1+1', 'C1': '=B1*2',
+                                   'D1': '=SUM(A1:C1)'}}}
+
+    def deep_fn():
+        model = compile_spec(deep_spec)
+        return lambda: [models_safe(model, f'S!A{DEEP_N}'),
+                        models_safe(model, 'S!A5')]
+
+    def small_fn():
+        model = compile_spec(small_spec)
+        return lambda: [models_safe(model, 'S!D1')]
+    old = sys.getrecursionlimit()
+    sys.setrecursionlimit(DEEP_LIMIT)
+    try:
+        wants = {}
+        for name, mk in (('deep', deep_fn), ('small', small_fn)):
+            boxes, _, _ = Controller().run({1: mk()}, [])
+            wants[name] = boxes[1].get('result', ('raises-bare', repr(
+                boxes[1].get('exc'))))
+        boxes, events, _ = Controller().run({1: small_fn()}, [])
+        schedules = {}
+        for k in (5, 40, 120):
+            # the small evaluation begins first (at each of its events in
+            # turn), the deep one begins, the small one ends, the deep one
+            # goes on ...
+            for j in range(1, events[1] + 1):
+                schedules[f'small-{j}:deep-{k}:small-ends'] = [
+                    (1, j), (2, k), (1, None)]
+            # ... or the small one lies entirely inside the deep one, or
+            # ends after it
+            schedules[f'deep-{k}:small'] = [(2, k), (1, None)]
+            schedules[f'deep-{k}:small-2:deep-ends'] = [
+                (2, k), (1, 2), (2, None)]
+        schedules['small-3:deep:small-ends'] = [(1, 3), (2, None), (1, None)]
+        schedules['alternating'] = [(1, 1), (2, 25), (1, 1), (2, 25), (1, 2),
+                                    (2, 60), (1, 1), (2, 60), (1, None)]
+        for sname, schedule in schedules.items():
+            case = dict(kind='deep', schedule=sname)
+            rec.case(key=('deep', sname), nontrivial=True,
+                     labels=('deep-chain', sname), sample=case)
+            with rec.watch('hang:deep', case, limit=120):
+                boxes, _, _ = Controller().run(
+                    {1: small_fn(), 2: deep_fn()}, schedule)
+            for tid, name in ((1, 'small'), (2, 'deep')):
+                got = boxes[tid].get('result', ('raises-bare', repr(
+                    boxes[tid].get('exc'))))
+                if not models.same_value(got, wants[name]) and not all(
+                        models.same_value(g, w)
+                        for g, w in zip(got, wants[name])):
+                    rec.fail(f'deep:result-differs:{name}', case,
+                             f'{name} workload (chain of {DEEP_N} formulas, '
+                             f'recursion limit {DEEP_LIMIT}): alone '
+                             f'{str(wants[name])[:80]}, under schedule '
+                             f'{sname}: {str(got)[:80]}')
+            # (an evaluation may leave the limit raised: start every
+            # schedule from the same setting)
+            sys.setrecursionlimit(DEEP_LIMIT)
+    finally:
+        sys.setrecursionlimit(old)
+
+
 # -- shards -------------------------------------------------------------------
 
 def shards(tier, seed):
-    out = [dict(kind='first-call')]
+    out = [dict(kind='first-call'), dict(kind='deep')]
     for pair in PAIRS:
         for warm in (False, True):
             out.append(dict(kind='jk', pair=list(pair), warm=warm,
@@ -426,6 +503,8 @@ def run_shard(shard, rec):
     if shard['kind'] == 'first-call':
         check_thread_independence(rec)
         check_first_call(rec)
+    elif shard['kind'] == 'deep':
+        check_deep(rec)
     elif shard['kind'] == 'jk':
         pair, warm = tuple(shard['pair']), shard['warm']
         _, ev1, _ = solo_cached(pair[0], warm)
@@ -458,6 +537,9 @@ def replay(case, rec):
         return
     if isinstance(case, dict) and case.get('kind') == 'first-call':
         check_first_call(rec)
+        return
+    if isinstance(case, dict) and case.get('kind') == 'deep':
+        check_deep(rec)
         return
     if isinstance(case, list):
         check_schedule(rec, tuple(case[0]), case[1],
